@@ -11,7 +11,7 @@ from oracles import plfun as P
 PROPERTY = "C08"
 RULE = (
     "ALL multisets of <= n bars with endpoints on the quarter lattice of [0,3] (78 bars, mostly off "
-    "grid); per diagram: grids (start,stop) in {(0,3), (-1,4), (0,3.5), tight default} x num_steps in "
+    "grid); per diagram: grids (start,stop) in {(0,3), (-1,4), (0,3.5), tight default, only start given, only stop given} x num_steps in "
     "{2,3,4,5,7,13} (+25,100 thorough), hom_deg 0/1 with a decoy. Oracle: k-th largest tent at every "
     "grid node and depth: |value - truth| <= step/2 (+1e-9), <= 1e-12 when every endpoint is a grid "
     "node, missing depths count as zero. Also vectorize(exact) == the exact landscape's own function "
@@ -23,7 +23,7 @@ ASSUMPTIONS = [
     "the 'empty' sentinel array of PersLandscapeApprox is read as 'no depth returned'",
     "vectorize is compared with the definition only where the exact landscape itself agrees with it (C03 known finding)",
 ]
-GRIDS = [(0.0, 3.0), (-1.0, 4.0), (0.0, 3.5), None]
+GRIDS = [(0.0, 3.0), (-1.0, 4.0), (0.0, 3.5), None, (-0.5, None), (None, 3.25)]
 STEPS = {"quick": [2, 3, 4, 5, 7, 13], "thorough": [2, 3, 4, 5, 7, 13, 25, 100]}
 
 
@@ -109,10 +109,15 @@ def run_case(case, ctx):
         P.ev(exact_fs[k - 1] if k <= len(exact_fs) else [], t) == OL.kth_tent(D, t, k)
         for k in range(1, len(D) + 2) for t in OL.breakpoints(D))
     for g in GRIDS:
-        start, stop = g if g is not None else (lo, hi)
+        gs, ge = g if g is not None else (None, None)
+        start, stop = (lo if gs is None else gs), (hi if ge is None else ge)   # a missing end defaults to the diagram's extreme
         for num in STEPS[ctx.tier]:
             ctx.state((D, start, stop, num))
-            kw = dict(start=start, stop=stop) if g is not None else {}
+            kw = {}
+            if gs is not None:
+                kw["start"] = gs
+            if ge is not None:
+                kw["stop"] = ge
             pl = quiet(ctx, PersLandscapeApprox, dgms=[A], hom_deg=0, num_steps=num, **kw)
             check_grid(ctx, D, pl, start, stop, num, "hom_deg=0")
             ctx.outcome(np.round(values_of(pl), 9).tolist())
@@ -131,9 +136,12 @@ def run_case(case, ctx):
                                       observed=np.asarray(out).tolist(), expected=want.tolist(), extra={"D": D, "start": start, "stop": stop, "num_steps": num})
             # sampling the exact landscape onto the grid reproduces its values at the nodes
             if num in (2, 5, 13, 100):
-                vkw = dict(start=start, stop=stop) if g is not None else {}
+                vkw = dict(kw)
                 vz = quiet(ctx, vectorize, ex, num_steps=num, **vkw)
-                vstart, vstop = (start, stop) if g is not None else (float(vz.start), float(vz.stop))
+                vstart, vstop = float(vz.start), float(vz.stop)
+                ctx.valid()
+                if (gs is not None and vstart != gs) or (ge is not None and vstop != ge):
+                    ctx.violation("vectorize", "vectorize does not use the grid end it was given", observed=[vstart, vstop], expected=[gs, ge], extra={"D": D})
                 grid = np.linspace(vstart, vstop, num)
                 V = values_of(vz)
                 ctx.valid()
@@ -143,7 +151,7 @@ def run_case(case, ctx):
                                   observed=V.tolist(), expected=want.tolist(), extra={"D": D, "start": vstart, "stop": vstop, "num_steps": num})
                 elif exact_ok:
                     T = truth(D, grid)[: V.shape[0]]
-                    if g is None and (vstart != lo or vstop != hi):
+                    if (gs is None and vstart != lo) or (ge is None and vstop != hi):
                         ctx.violation("vectorize", "default grid of vectorize is not [min birth, max death]", observed=[vstart, vstop], expected=[lo, hi], extra={"D": D})
                     elif not np.all(np.abs(V - T) <= 1e-12):
                         ctx.violation("vectorize", "vectorize(exact) differs from the true landscape at the grid nodes",
